@@ -261,6 +261,15 @@ func (f *FaceModule) create(interest *spec.Interest, pitToken []byte, inFace uin
 			defaultCongestionThresholdBytes = *params.DefaultCongestionThreshold
 		}
 
+		// A TCP face does not fragment (reliable stream): each packet is sent as one frame
+		// and dropped if that is longer than the MTU
+		if params.Mtu != nil && *params.Mtu < defn.MaxNDNPacketSize {
+			core.LogWarn(f, "MTU ", *params.Mtu, " is too small for a face that does not fragment")
+			response = makeControlResponse(406, "MTU is too small for a face without fragmentation", nil)
+			f.manager.sendResponse(response, interest, pitToken, inFace)
+			return
+		}
+
 		// Create new TCP face
 		transport, err := face.MakeUnicastTCPTransport(URI, nil, persistency)
 		if err != nil {
@@ -412,7 +421,14 @@ func (f *FaceModule) update(interest *spec.Interest, pitToken []byte, inFace uin
 		areParamsValid = false
 	}
 
-	if params.Mtu != nil && *params.Mtu < defn.MinMTU {
+	// A link service that fragments can carry every packet over any MTU from defn.MinMTU.
+	// One that does not (TCP, Unix and WebSocket faces: reliable streams) sends each packet
+	// as one frame and drops it if that is longer than the MTU.
+	minMTU := uint64(defn.MinMTU)
+	if linkService, ok := selectedFace.(*face.NDNLPLinkService); ok && !linkService.Options().IsFragmentationEnabled {
+		minMTU = defn.MaxNDNPacketSize
+	}
+	if params.Mtu != nil && *params.Mtu < minMTU {
 		core.LogWarn(f, "MTU ", *params.Mtu, " is too small to carry a packet")
 		responseParams["Mtu"] = uint64(*params.Mtu)
 		areParamsValid = false
